@@ -197,6 +197,7 @@ fn eval(case: &J) -> Eval {
 	match family.as_str() {
 		"rfail" => {
 			let kind = sc.param_s("rkind").unwrap_or("Other").to_owned();
+			let mut fine_base: Option<Outcome> = None;
 			let ks = pinned.map_or_else(|| positions(input_len), |k| vec![k]);
 			for k in ks {
 				let mut s = sc.clone();
@@ -232,6 +233,24 @@ fn eval(case: &J) -> Eval {
 						Verdict::Panic(_) => {}
 					}
 					if let Err(e) = docs_in_order(sc.to, &o.out, &base.out) {
+						// When the fault-free translation itself fails, how much it emitted before
+						// failing may depend on how the bytes arrived (C02 only asks for
+						// prefix-comparable partial outputs), and the fault changes that: the read
+						// that ends at offset k is a short one. The reference is then the most any
+						// fault-free supply emits - the one-byte-at-a-time producer.
+						let fine_ok = !bv.is_ok() && {
+							let fine = fine_base.get_or_insert_with(|| {
+								let mut f = base_sc.clone();
+								f.calls[0].reader = true;
+								f.calls[0].sched = Sched::bytes(1);
+								exec::run(&f)
+							});
+							docs_in_order(sc.to, &o.out, &fine.out).is_ok()
+						};
+						if fine_ok {
+							ev.count("failing_baseline_finer_supply_used", 1);
+							continue;
+						}
 						ev.violate(format!("rfail/wrong-docs/{tag}"), format!("k={k}: {e}"));
 					}
 				} else {
